@@ -910,6 +910,9 @@ func main() {
 	case "C10live":
 		r.prop = "C10"
 		r.c10live(*budget)
+	case "C05live":
+		r.prop = "C05"
+		r.c05live(*budget)
 	case "C16router":
 		r.prop = "C16"
 		r.c16router(*budget)
